@@ -23,6 +23,10 @@ package store
 //@   trusted
 //@   nopanic
 
+// $deletes: number of Delete calls this thread has made on stores
+//@ ghost local $deletes int
 //@ func (s Store) Delete(key []byte) (err error)
 //@   trusted
 //@   nopanic
+//@   modifies $deletes
+//@   ensures [counted] $deletes == old($deletes) + 1
